@@ -341,7 +341,21 @@ def seg_hstack(I, parts):
 
 
 def seg_to_arr(I, s):
-    if any(isinstance(x, Family) for x in s.segs):
+    fams = [x for x in s.segs if isinstance(x, Family)]
+    if len(fams) == 1 and len(s.segs) == 1 and s.kind == 'list' and len(fams[0].vars) == 1:
+        # a list built by exactly one unconditional append per iteration of `for k in range(lo, hi)`:
+        # element i is the appended item of iteration lo + i
+        from .interp import loop_bounds, subst_value
+        fam = fams[0]
+        k = fam.vars[0]
+        lo, hi, rest = loop_bounds(fam.dom, k, with_rest=True)
+        rest = [r for r in rest if not z3.is_true(z3.simplify(r))]
+        if lo is not None and hi is not None and not rest and isinstance(fam.item, list) and len(fam.item) == 1:
+            item = fam.item[0]
+            n = z3.simplify(hi - lo)
+            n = ite(n >= 0, n, 0)
+            return Arr(_sz(n), lambda i: subst_value(item, k, lo + lift(i)), kind='list')
+    if fams:
         raise Unsupported('array view of a loop-built sequence')
     if s.kind == 'list':
         out = []
@@ -352,6 +366,8 @@ def seg_to_arr(I, s):
 
 
 def seg_get(I, s, idx, what):
+    if s.kind == 'list':
+        return I.arr_get(seg_to_arr(I, s), idx, what)
     raise Unsupported('subscript of accumulator')
 
 
@@ -733,6 +749,19 @@ def arr_extreme(I, a, is_max):
     """max(a) / min(a) over a symbolic-length array: fresh value m with  forall i: a[i] <= m  and
     exists i: a[i] = m  (for n > 0; on n = 0 Python raises ValueError -> safety obligation)."""
     I.require('max-of-empty', cmpop('Gt', a.n, 0), kind='index')
+    if a.comp is not None:
+        base, mask = a.comp
+        pb = z3.Int('probe!id')
+        try:
+            ident = z3.is_true(z3.simplify(lift(base.f(pb)) == pb))
+        except Exception:
+            ident = False
+        if ident:
+            # selection from the identity index: strictly increasing, so min / max are the first / last selected position
+            cnt, sel, rank = sym.COMP.get(mask)
+            return sel(lift(cnt) - 1) if is_max else sel(z3.IntVal(0))
+    if I.loops:
+        raise Unsupported('min/max of a general array inside a symbolic loop')
     probe = lift(a.f(z3.Int('probe!m')))
     m = z3.Const(fresh_name('extreme'), probe.sort())
     i = z3.Int(fresh_name('q'))
